@@ -378,11 +378,7 @@ def main():
 
 
 if __name__ == "__main__":
-    try:
-        from . import gen_more  # noqa
-    except Exception:
-        try:
-            import gen_more  # noqa: F401  (registers more generators when present)
-        except ImportError:
-            pass
+    sys.path.insert(0, os.path.dirname(os.path.abspath(__file__)))
+    sys.modules.setdefault("gen", sys.modules["__main__"])
+    import gen_more  # noqa: F401  (registers more generators)
     sys.exit(main())
